@@ -716,7 +716,7 @@ func evalFunctionCall(node *CallExpression, env *Environment) Object {
 		return args[0]
 	}
 
-	return fn.(*Function).Value(args...)
+	return funcObj.Call(args...)
 }
 
 func evalUpdateFunctionCall(node *CallExpression, env *Environment) Object {
@@ -739,7 +739,7 @@ func evalUpdateFunctionCall(node *CallExpression, env *Environment) Object {
 		return args[0]
 	}
 
-	return fn.(*Function).Value(args...)
+	return funcObj.Call(args...)
 }
 
 func evalFunctionCallIdentifer(node *CallExpression, env *Environment) Object {
